@@ -8,11 +8,14 @@ static A: alloc::CountingAlloc = alloc::CountingAlloc;
 
 fn main() {
     let k = TKey::probe(1);
-    let v = TVal { tok: 0, heap: 0, clone_delta: 0 };
+    let v = TVal::raw(0, 0, 0);
     let overhead = lru_mem::entry_size(&k, &v);
     let c = Cache::with_hasher(0, HB::Const);
     let stride = c.verif_snapshot().stride;
     // group width: the smallest table in which a removal can leave a tombstone
-    println!("{}", json!({"overhead": overhead, "stride": stride,
+    use lru_mem::MemSize;
+    println!("{}", json!({"overhead": overhead, "stride": stride, "shape": shape_name(),
+        "key_size": k.mem_size(), "value_size": v.mem_size(),
+        "needs_drop": [std::mem::needs_drop::<TKey>(), std::mem::needs_drop::<TVal>()],
         "group_width": if cfg!(target_feature = "sse2") { 16 } else { 8 }}));
 }
